@@ -137,4 +137,10 @@ contract(_DU + "construct_faces", props=["C18"],
          ]),
              1: loop(counter="kk", invariants=["index == kk",
                                                "forall(0, kk, lambda k: temp_face[k] == node_face_connectivity[i, k])"])},
+         asserts={"after:construct_node_face_connectivity[i - correction] = _face": [
+             # the rows written earlier lie strictly above... below the row just written: their rank is smaller
+             "assert forall(0, i, lambda h: implies(n_edges[h] > 2, " + _RANK.format(i="h") + " < i - correction))",
+             "assert forall(0, max_edges, lambda j: construct_node_face_connectivity[i - correction, j] == _face[j])",
+             "assert forall(0, max_edges, lambda j: _face[j] == FILL or exists(0, n_edges[i], lambda k: _face[j] == node_face_connectivity[i, k]))",
+         ]},
          raises=[("Exception", "False", "only_if")])
